@@ -192,10 +192,28 @@ func VerifFixtureFile() {
 		rr = mrand.New(mrand.NewSource(1))
 	}
 	size := verifrt.Choose(4)
+	// the random source may run dry before `size` bytes were drawn: the fixture then
+	// holds what there was, and says so
+	avail := size
+	if verifrt.Choose(2) == 1 {
+		avail = verifrt.Choose(size + 1)
+		rr = io.LimitReader(rr, int64(avail))
+		verifrt.Reach("short-source")
+	}
 	de, err := UnixFSFile(*ls, size, WithRandReader(rr), WithChunker("size-2"))
+	if avail < size && err != nil {
+		verifrt.Reach("end") // refusing a source that ran dry is as good as describing what was stored
+		return
+	}
 	verifrt.Assert(err == nil, "fixture:generator-ok")
-	verifrt.Assert(len(de.Content) == size, "fixture:file-size")
+	if avail == size {
+		verifrt.Assert(len(de.Content) == size, "fixture:file-size")
+	}
 	readBack(ls, de, true)
+	if avail < size {
+		verifrt.Reach("end")
+		return // (the wrapping below draws from the same, now empty, source)
+	}
 	// SelfCids are exactly the blocks written
 	verifrt.Assert(len(de.SelfCids) == len(st.Blocks), "fixture:selfcids=blocks-written")
 	t := &stubT{}
